@@ -159,6 +159,14 @@ def order_monitor(t, orc):
             nosel = [n for n in names if n in specs and specs[n]["sel"] == "-"]
             if names != withsel + nosel:
                 bad.append({"step": k, "clause": "a ClusterCIDR without selector does not come last", "detail": str(names), "cls": "selectorless-not-last"})
+            # completeness: every mapped ClusterCIDR that is eligible for these labels (selector satisfied, or none; not
+            # terminating when the list is asked for an allocation) is in the list -- those without a selector included, last
+            if t.snap[k] is not None:
+                eligible = {en["name"] for en in t.snap[k] if en["name"] in specs and not (f[2] == "1" and en["term"])
+                            and (specs[en["name"]]["sel"] == "-" or sysmon.sel_matches(specs[en["name"]]["sel"], labels))}
+                missing = sorted(eligible - set(names))
+                if missing:
+                    bad.append({"step": k, "clause": "an eligible ClusterCIDR is missing from the candidate order", "detail": "%s missing from %s" % (missing, names), "cls": "eligible-missing"})
 
             def key(n):
                 sp = specs[n]
